@@ -25,7 +25,7 @@ ASSUMPTIONS = ["independent FAB location = byte search for the header text namin
 
 @st.composite
 def cases(draw, tier="quick"):
-    spec = draw(plotgen.plot_specs(thin=True, max_cells=1500 if tier == "quick" else 5000, max_fields=4,
+    spec = draw(plotgen.plot_specs(thin=True, many=True, max_cells=1500 if tier == "quick" else 5000, max_fields=4,
                                    payload_kinds=("coded", "random", "special")))
     kinds = corrupt.SOFT * 5 + corrupt.HARD + ["fab_ncomp_consistent", "nfields_plus"] * 3
     ops = draw(st.lists(corrupt.op_strategy(kinds), min_size=1, max_size=3))
@@ -59,7 +59,7 @@ def check_case(case, ctx):
     ctx.fresh()
     plot = plotgen.Plot(case["spec"])
     plotgen.write(plot, "src")
-    ctx.label(*[x for x in plot.labels() if x in ("2D", "3D", "one-cell-thick-box", "scattered", "non-monotone")])
+    ctx.label(*[x for x in plot.labels() if x in ("2D", "3D", "one-cell-thick-box", "scattered", "non-monotone", "many-fields(>12)")])
     limit = case["limit"]
     L = plot.nlev - 1 if limit is None else limit
     before = tree_files("src")
